@@ -187,7 +187,8 @@ func checkG(c GCase, r *vf.R) error {
 	checked := 0
 	for py := 1; py < b.Dy()-1; py++ {
 		for px := 1; px < b.Dx()-1; px++ {
-			x, y := (float64(px)+0.5)/c.DPMM, c.H-(float64(py)+0.5)/c.DPMM
+			// canvas y = 0 is the bottom edge of the image (whose height in pixels is rounded up)
+			x, y := (float64(px)+0.5)/c.DPMM, (float64(b.Dy())-float64(py)-0.5)/c.DPMM
 			if !inside(x, y) {
 				continue
 			}
